@@ -447,10 +447,18 @@ pub fn read_message<R: BufRead + std::fmt::Debug + Send>(input: R, spec: &ReadSp
                 let mut n = 0usize;
                 let mut clean = false;
                 let mut buf = [0u8; 64];
+                let dbg = std::env::var("VERIF_DEBUG").is_ok();
                 match msg.read(&mut buf) {
                     Ok(0) => clean = true,
                     Ok(k) => n += k,
-                    Err(_) => {}
+                    Err(e) => {
+                        if dbg {
+                            eprintln!("read_message: read after the error: {e}");
+                        }
+                    }
+                }
+                if dbg {
+                    eprintln!("read_message: after read: {n} octets, clean={clean}");
                 }
                 match msg.fill_buf().map(|b| b.len()) {
                     Ok(0) => clean = true,
